@@ -177,10 +177,11 @@ theorem alignOffset_eq : alignOffset .inside = StrokeAlignment.inside.toOffset â
 `EG.Joins.triPixels` (EG/Model/ThickTriangle.lean: every width and alignment, join code inlined;
 tied to the real `pixels()` by the `thick.triangle` stream) and `Triangle.outlinePixelsAligned`
 (EG/Model/TriangleAligned.lean: width 1, the join code replaced by its two proved values
-`skeletonSeg` / `collapsedFlag1`) transcribe the same Rust iterators. Their general equality is not
-proved; it is kernel-checked here on a sample (all three alignments; proper, colinear and coincident
-triangles, both orientations); evaluated (`#eval`, not part of the build) they agree on all 4096
-vertex triples of a 4 x 4 grid x 3 alignments. -/
+`skeletonSeg` / `collapsedFlag1`; tied to the real `pixels()` by the `tri.outline_al` stream: all
+ordered vertex triples of the unit grid with Inside and Outside alignment) transcribe the same Rust
+iterators. Their general equality is not proved; it is kernel-checked here on a sample (all three
+alignments; proper, colinear and coincident triangles, both orientations); evaluated (`#eval`, not
+part of the build) they agree on all 4096 vertex triples of a 4 x 4 grid x 3 alignments. -/
 
 /-- `StrokeAlignment` of the join model. -/
 def alignJ : TriAlign â†’ StrokeAlignment
